@@ -117,12 +117,17 @@ def run_example(part, name):
 
 
 def main(tier, seed, only=None):
-    cap = 250 if tier == "quick" else 12000
+    cap = 150 if tier == "quick" else 12000
     shards = []
     names = [only] if only else list(PUZZLES)
     for name in names:
         r = rule(name)
         for shape in r.shapes(tier):
+            if isinstance(shape, (list, tuple)) and shape and isinstance(shape[0], str):
+                # "large" / "long" / "structured" ... families: a few dozen instances whose construction is itself costly;
+                # one shard each, built inside the worker (never in the parent, which would serialise them)
+                shards.append((name, shape, cap, 0, None))
+                continue
             n = sum(1 for _ in r.instances(shape, cap))
             step = 60 if tier == "quick" else 400
             for lo in range(0, max(n, 1), step):
@@ -139,8 +144,9 @@ def main(tier, seed, only=None):
         "ambiguity envelope (DESIGN.md C11): where the rules admit two readings the implementation must match one of them",
         "for loop puzzles 'no line at all' counts as a loop (the library's documented convention)",
     ]
-    shards = [("example", n) for n in names] + shards
-    par.run_shards(run, worker, shards, seed, shard_limit=1800)
+    heavy = [("example", n) for n in names] + [sh for sh in shards if sh[4] is None]
+    shards = [sh for sh in shards if sh[4] is not None]
+    par.run_shards(run, worker, shards, seed, shard_limit=1800, first=heavy)
     cov = {"evaluations": run.c("evaluations"), "distinct_nontrivial": run.n("nontrivial"), "shapes": run.n("shapes"), "puzzles": len(names), "exhaustive": True}
     return run.finish(cov)
 
